@@ -8,7 +8,8 @@
 // cases.json: [{"id","category","rule","label":"avoid"|"prefer","files":[{"name","text"}],"config_yaml":"",
 //
 //	"embed":"all"|"none"|"nocrlf,noblank,notop,noappend" (exclusions), "batch":bool,
-//	"embeddings":[["P3","C"],...] (replay: exactly these embeddings)}]
+//	"embeddings":[["P3","C"],...] (replay: exactly these embeddings),
+//	"shift_targets":[9,99], "shift_rows":"all"|"nonblank" (boundary shifts, see below)}]
 //
 // out.jsonl : one object per (case, embedding):
 //
@@ -19,12 +20,19 @@
 //
 // Embedding ops: "P<k>" k blank lines after the package line, "T<k>" k blank lines at the top, "C" CRLF line ends,
 // "A" append a blank line and an unrelated rule (numbered per occurrence).
+//
+// Boundary shifts (Model/Layout.v boundary_shifts): on top of the embeddings of the tier every case is linted under
+// "T<k>" for every k = t - r, r a row (any row, or any non-blank row) of one of its files, t a target row (9, 99,
+// 999: the last row before row numbers get one more digit), so that every pair of rows of the example is put on the
+// two sides of such a boundary by some embedding. Their results carry "shift":true and, instead of the text,
+// "digests": {name: {"len","hash"}} (polynomial hash mod 2^61-1, recomputed from the model's text in Coq).
 package main
 
 import (
 	"context"
 	"encoding/json"
 	"fmt"
+	"math/bits"
 	"os"
 	"runtime"
 	"sort"
@@ -56,6 +64,14 @@ type Case struct {
 	Embed      string     `json:"embed"` // "all" | "none" | "nocrlf" | "noblank" | "noappend" (comma separated exclusions)
 	Batch      bool       `json:"batch"`
 	Embeddings [][]string `json:"embeddings,omitempty"`
+	// boundary shifts: target rows and which rows of the example are put there ("all" | "nonblank")
+	ShiftTargets []int  `json:"shift_targets,omitempty"`
+	ShiftRows    string `json:"shift_rows,omitempty"`
+}
+
+type Digest struct {
+	Len  int    `json:"len"`
+	Hash uint64 `json:"hash"`
 }
 
 type Viol struct {
@@ -79,6 +95,9 @@ type Result struct {
 	Notices    []string          `json:"notices"`
 	Error      string            `json:"error"`
 	BatchSize  int               `json:"batch_size,omitempty"`
+	Shift      bool              `json:"shift,omitempty"`
+	Digests    map[string]Digest `json:"digests,omitempty"`
+	ShiftsUsed []int             `json:"shifts_used,omitempty"` // identity result only: the shift amounts of this case
 }
 
 // ---- the transformation grammar on text -------------------------------------------------------
@@ -173,6 +192,48 @@ func embeddings(tier string) [][]string {
 		}
 	}
 	return out
+}
+
+const (
+	hashP = uint64(1)<<61 - 1
+	hashM = uint64(1000003)
+)
+
+// h <- (h*m + c + 1) mod (2^61 - 1) over the bytes; Check/C08Check.v hash_str
+func hashText(t string) uint64 {
+	var h uint64
+	for i := 0; i < len(t); i++ {
+		hi, lo := bits.Mul64(h, hashM)
+		lo, c := bits.Add64(lo, uint64(t[i])+1, 0)
+		hi += c
+		_, h = bits.Div64(hi, lo, hashP)
+	}
+	return h
+}
+
+// the amounts k of blank lines at the top that put a row (1-based r; every row, or every row that is not blank)
+// of one of the files on a target row t: k = t - r for r <= t
+func boundaryShifts(c *Case) []int {
+	set := map[int]bool{}
+	for _, f := range c.Files {
+		lines := strings.Split(strings.ReplaceAll(f.Text, "\r\n", "\n"), "\n")
+		for i, l := range lines {
+			if c.ShiftRows == "nonblank" && strings.Trim(l, " \t") == "" {
+				continue
+			}
+			for _, t := range c.ShiftTargets {
+				if i+1 <= t {
+					set[t-(i+1)] = true
+				}
+			}
+		}
+	}
+	ks := make([]int, 0, len(set))
+	for k := range set {
+		ks = append(ks, k)
+	}
+	sort.Ints(ks)
+	return ks
 }
 
 // the single transformations of the quick tier
@@ -297,6 +358,8 @@ type plan struct {
 	embs  [][]string
 	texts []map[string]string // per embedding
 	rep   []int               // per embedding: index of the first embedding with identical texts
+	shift []bool              // per embedding: a boundary shift (not one of the embeddings of the tier)
+	used  []int               // the boundary shift amounts of the case
 }
 
 func textsKey(m map[string]string) string {
@@ -350,7 +413,25 @@ func main() {
 		p := &plan{c: c}
 		seen := map[string]int{}
 		canBatch := c.Batch && len(c.Files) == 1 && tier != "replay"
-		for _, ops := range list {
+		nTier := len(list)
+		if tier != "replay" && len(c.Embeddings) == 0 && len(c.ShiftTargets) > 0 {
+			have := map[string]bool{}
+			for _, ops := range list {
+				have[strings.Join(ops, ",")] = true
+			}
+			list = append([][]string{}, list...)
+			nTier = len(list)
+			for _, k := range boundaryShifts(c) {
+				op := "T" + strconv.Itoa(k)
+				if allowed(c.Embed, []string{op}) {
+					p.used = append(p.used, k)
+				}
+				if !have[op] {
+					list = append(list, []string{op})
+				}
+			}
+		}
+		for li, ops := range list {
 			if !allowed(c.Embed, ops) {
 				continue
 			}
@@ -367,6 +448,7 @@ func main() {
 			idx := len(p.embs)
 			p.embs = append(p.embs, ops)
 			p.texts = append(p.texts, files)
+			p.shift = append(p.shift, li >= nTier)
 			if r, ok := seen[k]; ok {
 				p.rep = append(p.rep, r)
 				continue
@@ -422,13 +504,29 @@ func main() {
 		out.Emit(r)
 		mu.Unlock()
 	}
+	// the text of a result, or its digest for the (many) boundary shifts
+	fill := func(r *Result, p *plan, e int) {
+		if len(p.embs[e]) == 0 {
+			r.ShiftsUsed = p.used
+		}
+		if !p.shift[e] {
+			r.Texts = p.texts[e]
+			return
+		}
+		r.Shift = true
+		r.Digests = map[string]Digest{}
+		for n, t := range p.texts[e] {
+			r.Digests[n] = Digest{Len: len(t), Hash: hashText(t)}
+		}
+	}
 	runJob := func(j job) {
 		if !j.batch {
 			it := j.items[0]
 			p := plans[it.c.ID]
 			vs, ns, err := lintFiles(it.c, p.texts[it.emb])
-			emit(Result{ID: it.c.ID, Emb: p.embs[it.emb], Mode: "single", Texts: p.texts[it.emb], Violations: vs,
-				Notices: ns, Error: errString(err)})
+			r := Result{ID: it.c.ID, Emb: p.embs[it.emb], Mode: "single", Violations: vs, Notices: ns, Error: errString(err)}
+			fill(&r, p, it.emb)
+			emit(r)
 			return
 		}
 		files := map[string]string{}
@@ -440,8 +538,9 @@ func main() {
 		vs, ns, err := lintFiles(j.items[0].c, files)
 		for i, it := range j.items {
 			p := plans[it.c.ID]
-			r := Result{ID: it.c.ID, Emb: p.embs[it.emb], Mode: "batch", Texts: p.texts[it.emb], Notices: ns,
+			r := Result{ID: it.c.ID, Emb: p.embs[it.emb], Mode: "batch", Notices: ns,
 				Error: errString(err), BatchSize: len(j.items)}
+			fill(&r, p, it.emb)
 			for _, v := range vs {
 				if v.File == names[i] {
 					v.File = it.c.Files[0].Name
@@ -472,7 +571,7 @@ func main() {
 	for _, p := range plans {
 		for e := range p.embs {
 			if p.rep[e] != e {
-				out.Emit(map[string]any{"id": p.c.ID, "emb": p.embs[e], "mode": "dup", "dup_of": p.embs[p.rep[e]]})
+				out.Emit(map[string]any{"id": p.c.ID, "emb": p.embs[e], "mode": "dup", "dup_of": p.embs[p.rep[e]], "shift": p.shift[e]})
 			}
 		}
 	}
